@@ -628,6 +628,7 @@ type c21Run struct {
 	// stagedSinceScan[root]: Stage was called on the root's endpoint after its last scan
 	stagedSinceScan map[string]bool
 	ready           bool // endpoints exist
+	bulkRoot        string
 }
 
 func (x *c21Run) log(format string, a ...any) {
@@ -1264,6 +1265,22 @@ func (x *c21Run) setup() error {
 			}
 		}
 	}
+	if p.Index%4 == 0 {
+		// large-snapshot program: one root is already large at the first scan,
+		// so the remote client's first delta is taken against the (walked)
+		// ancestor and contains block references into it
+		x.bulkRoot = []string{"a", "b"}[x.rng.Intn(2)]
+		if listRoot(x.L.root(x.bulkRoot)).rootKind == "dir" {
+			op := diskOp{Kind: "bulk", Path: "big0", Count: 300 + x.rng.Intn(1500), Seed: x.rng.Int63(), Mtime: x.clock + 1}
+			x.log("edit %s: %s", x.bulkRoot, op)
+			for _, s := range x.sides() {
+				if err := applyOp(s.root(x.bulkRoot), op); err != nil {
+					return err
+				}
+			}
+			x.clock += 2
+		}
+	}
 	for _, which := range []string{"a", "b"} {
 		alpha := which == "a"
 		ep, err := local.NewEndpoint(logger, x.L.root(which), x.L.session, synchronization.DefaultVersion, proto.Clone(p.cfg).(*synchronization.Configuration), alpha)
@@ -1321,9 +1338,8 @@ func (x *c21Run) run() {
 		// large-snapshot program: a bulk directory first, then many consecutive
 		// scans of the same endpoint with small and large changes in between
 		bulkBudget = 4
-		which := []string{"a", "b"}[x.rng.Intn(2)]
+		which := x.bulkRoot
 		for _, op := range []diskOp{
-			{Kind: "bulk", Path: "big0", Count: 300 + x.rng.Intn(1500), Seed: x.rng.Int63(), Mtime: x.clock + 1},
 			{Kind: "bulk-touch", Path: "big0", Count: 97, Seed: x.rng.Int63(), Mtime: x.clock + 2},
 			{Kind: "write", Path: "big0/one-more", Size: 10, Seed: x.rng.Int63(), Mode: 0o644, Mtime: x.clock + 3},
 			{Kind: "bulk-touch", Path: "big0", Count: 2, Seed: x.rng.Int63(), Mtime: x.clock + 4},
